@@ -202,6 +202,39 @@ def rule_running_row_not_reset(ctx):
               "nothing between define_step and `DELETE FROM step` looks at the state of the reused row: a RUNNING (or CHECKING) detached step that is declared again with other arguments becomes PENDING while its command runs; the running command is no longer counted against jobs, resources or holds, and the step is dispatched a second time", "state of the reused row consulted", where=ctx.where_of(ir))
 
 
+def rule_redeclared_running_step(ctx):
+    """R-C12-10: how a step that is declared again while its command runs is carried through.
+
+    (a) initialize_row reads the old row before deleting it and, when the old state is RUNNING, writes RUNNING again and
+        carries the open-hold counter over; (b) the executor records the declaration when the command is launched,
+        compares it when the command has ended and, when it differs, discards the verdict: no completion, the stored
+        hash is deleted and the step is made pending.
+    """
+    ir = ctx.prog.func("step.Step.initialize_row")
+    stm = ctx.sql.stmts_in(ir.fq)
+    sel = [s_ for s_ in stm if s_.kind == "SELECT" and ("step", "state") in s_.reads]
+    dele = [s_ for s_ in stm if s_.kind == "DELETE" and any(w[1] == "step" for w in s_.writes)]
+    ins = [s_ for s_ in stm if s_.kind == "INSERT" and any(w[0] == "INSERT" and w[1] == "step" for w in s_.writes)]
+    ctx.check(bool(sel) and bool(dele) and sel[0].site.lineno < dele[0].site.lineno, ir.fq, "the old row is read before it is deleted", "the old state is not read (or only after the row is gone)", "SELECT state ... before DELETE", where=ctx.where_of(ir))
+    src = ast.unparse(ir.node)
+    keeps_state = re.search(r"StepState\.RUNNING if \w+ else StepState\.PENDING", src) is not None or re.search(r"StepState\.PENDING if not \w+ else StepState\.RUNNING", src) is not None
+    flag_ok = any(isinstance(a, ast.Assign) and "StepState.RUNNING" in ast.unparse(a.value) and "==" in ast.unparse(a.value) for a in ast.walk(ir.node))
+    ctx.check(keeps_state and flag_ok, ir.fq, "a row that was RUNNING is written as RUNNING again, every other one as PENDING", "the new row is PENDING whatever the old one was: the step is dispatched a second time next to its running command", "RUNNING iff the old row was RUNNING")
+    holds = bool(ins) and "_holding" in re.sub(r"\s+", " ", ins[0].text) and re.search(r"'holding': \w+\[1\] if \w+ else 0", src) is not None
+    ctx.check(holds, ir.fq, "the open-hold counter of a running step is carried over", "a re-declared running step loses its open holds: the steps it is holding back are released while the block is still open", "_holding carried over")
+    ej = ctx.prog.func("executor.Executor.execute_job")
+    rec = [a for a in ast.walk(ej.node) if isinstance(a, ast.Assign) and ast.unparse(a.targets[0]) == "run.launched_decl" and "_declaration(" in ast.unparse(a.value)]
+    ctx.check(len(rec) == 1, ej.fq, "the declaration is recorded when the command is about to start", f"{len(rec)} assignments of run.launched_decl", "recorded in the reset transaction")
+    rs = ctx.prog.func("executor.Executor._restart_if_declared_again")
+    rsrc = re.sub(r"\s+", " ", ast.unparse(rs.node))
+    ctx.check("run.launched_decl == self._declaration(run.step)" in rsrc or "run.launched_decl != self._declaration(run.step)" in rsrc, rs.fq, "the recorded declaration is compared with the current one", "comparison changed", "compared")
+    names = [callee_name(c) for c in calls_in(rs.node)]
+    ctx.check("delete_hash" in names and any(callee_name(c) == "set_state" and c.args and ast.unparse(c.args[0]) == "StepState.PENDING" for c in calls_in(rs.node)) and "mark_completed" not in names, rs.fq, "a replaced declaration ends the run without a verdict: hash deleted, step pending", "the run is completed (or keeps its hash) although the declaration it ran for is gone", "delete_hash + set_state(PENDING)")
+    dec = ctx.prog.func("executor.Executor._declaration")
+    getters = {callee_name(c) for c in calls_in(dec.node)}
+    ctx.check({"inp_paths", "env_deps", "out_paths", "vol_paths"} <= getters and "dynamic=False" in ast.unparse(dec.node), dec.fq, "the compared declaration is what can_recycle compares (initial inputs, variables, outputs, volatile outputs)", f"getters {sorted(getters)}", "four initial lists")
+
+
 def rule_hold_counter(ctx):
     """R-C12-5: the open-hold counter only moves with hold()/release() of the running command, and is cleared only
     when the step stops RUNNING."""
@@ -252,6 +285,7 @@ def rule_pool_initialised(ctx):
 
 
 RULES = [
+    Rule("R-C12-10", "a step declared again while running keeps its row and is run again afterwards", rule_redeclared_running_step, min_instances=7),
     Rule("R-C12-9", "the resource pool is initialised from the command line", rule_pool_initialised, min_instances=1),
     Rule("R-C12-8", "steps (re)attached inside a hold block are re-examined (hold clause relies on the _safe recomputation)", C10.rule_step_overrides, min_instances=8),
     Rule("R-C12-7", "resource claims are replaced on declaration", rule_claims_replaced, min_instances=7),
@@ -264,6 +298,9 @@ RULES = [
 ]
 
 MUTANTS = [
+    Mutant("redeclared-running-row-reset", "step.py", in_function("Step.initialize_row", replace_once('"state": (StepState.RUNNING if still_running else StepState.PENDING).value,', '"state": StepState.PENDING.value,')), ("R-C12-10",)),
+    Mutant("redeclared-running-loses-holds", "step.py", in_function("Step.initialize_row", replace_once('"holding": old_row[1] if still_running else 0,', '"holding": 0,')), ("R-C12-10",)),
+    Mutant("replaced-declaration-completes", "executor.py", in_function("Executor._restart_if_declared_again", replace_once("            if run.launched_decl == self._declaration(run.step):\n                return False\n", "            return False\n")), ("R-C12-10",)),
     Mutant("pool-never-filled", "scheduler.py", in_function("Scheduler.initialize", lambda t: __import__("re").sub(r"\n( +)self\.db\.executemany\(\s*INSERT_AVAILABLE_RESOURCE,[^\n]*(?:\n[^\n]*)*?\n\1\)\n|\n( +)self\.db\.executemany\(INSERT_AVAILABLE_RESOURCE,[^\n]*\)\n", lambda m: "\n" + (m.group(1) or m.group(2)) + "pass\n", t, count=1) if "INSERT_AVAILABLE_RESOURCE" in t else None), ("R-C12-9",)),
     Mutant("declared-none-keeps-old-claims", "workflow.py", in_function("Workflow.define_step", replace_once("        step.set_resources(resources)\n", "        if resources:\n            step.set_resources(resources)\n")), ("R-C12-7",)),
     Mutant("claims-merged-not-replaced", "step.py", in_function("Step.set_resources", lambda t: t.replace('"DELETE FROM step_resource WHERE node = ?", (self.i,)', '"DELETE FROM step_resource WHERE node = ? AND name NOT IN (SELECT value FROM json_each(?))", (self.i, "[]")', 1).replace('"INSERT INTO step_resource VALUES (?, ?, ?)"', '"INSERT INTO step_resource VALUES (?, ?, ?) ON CONFLICT DO NOTHING"', 1) if '"DELETE FROM step_resource WHERE node = ?", (self.i,)' in t else None), ("R-C12-7",)),
